@@ -343,6 +343,12 @@ func generate(a wh.Args, out *wh.Out) {
 		vols = append(vols, "volume repo 200 60000 30", "volume mw 600 30000 20", "volume dec 600 30000 20",
 			"volume repo 20 5000 20", "volume repo 100 1500 10", "volume mw 300 6000 16", "volume dec 300 6000 16")
 	}
+	// arrivals right after the repository became empty (the clean-up must stay alive through idle phases)
+	idles := []string{"idle repo 1 8 2500", "idle mw 1 4 2500", "idle dec 2 4 2500"}
+	if thorough {
+		idles = []string{"idle repo 1 8 12000", "idle mw 1 6 12000", "idle dec 1 6 12000", "idle repo 3 4 12000"}
+	}
+	vols = append(vols, idles...)
 	for _, req := range vols {
 		req := req
 		expWg.Add(1)
@@ -372,8 +378,10 @@ func generate(a wh.Args, out *wh.Out) {
 	genTimeout(out)
 	if thorough {
 		genCtx(rng, out, 1500, 400)
+		genShare(rng, out, 1500, 400)
 	} else {
 		genCtx(rng, out, 120, 48)
+		genShare(rng, out, 150, 48)
 	}
 	for i := 0; i < nConc; i++ {
 		g := 1 + i%32
@@ -420,8 +428,11 @@ func generate(a wh.Args, out *wh.Out) {
 	}
 	for _, v := range volAll {
 		out.Case(v.req, v.obs)
-		out.Count("volume." + strings.Fields(v.req)[1])
-		n, _ := strconv.Atoi(strings.Fields(v.req)[3])
-		out.Add("volume.keys", n)
+		vf := strings.Fields(v.req)
+		out.Count(vf[0] + "." + vf[1])
+		if vf[0] == "volume" {
+			n, _ := strconv.Atoi(vf[3])
+			out.Add("volume.keys", n)
+		}
 	}
 }
